@@ -330,3 +330,187 @@ Proof.
     eapply inv01_update; [exact Hh|exact Hinv3|exact Hs|..]; try upd_same Hs; try apply (i_viol _ _ _ Hinv3).
     all: try (destruct out; reflexivity).
 Qed.
+
+Lemma inv01_init w : inv01 w m01_init (init_state (w_cfg w)).
+Proof.
+  constructor.
+  - apply hinv_init.
+  - intros tid oi H. cbn in H. discriminate.
+  - intros o i H. exfalso. eapply no_entry_init, H.
+  - intros tid ob i H. cbn in H. discriminate.
+  - intros tid p i ch H. cbn in H. discriminate.
+  - cbn. intros [].
+Qed.
+
+Lemma mon01_run_inv w es : c_hier (w_cfg w) = true -> forall m s, inv01 w m s ->
+  ~ In 2 (m_viol (mon01_run w m es (model_obs w es (run_states w s es)))).
+Proof.
+  intros Hh. unfold model_obs. induction es as [|e t IH]; intros m s Hinv; cbn [run_states].
+  - cbn. apply (i_viol _ _ _ Hinv).
+  - destruct (step w s e) as [s1 out] eqn:E. cbn [combine map mon01_run].
+    apply IH. apply inv01_step; assumption.
+Qed.
+
+(** clause 2 never fires on hierarchical model runs *)
+Lemma mon01_no_clause2 w es : c_hier (w_cfg w) = true -> ~ In 2 (mon01_raw w es).
+Proof. intros Hh. apply mon01_run_inv; [assumption|apply inv01_init]. Qed.
+
+(** ---- clause 4 (m10) ---- *)
+Definition ups_ok (s : state) (x : (nat * nat) * (N * N)) : Prop :=
+  let '((o, i), (r, t)) := x in
+  (t <= s_tbr s)%N /\ exists l, In ((o, S i), l) (s_index s) /\ (t <= l_abs l)%N /\ (l_abs l < hiM s)%N.
+
+Lemma ups_ok_mono n s s' x : sfr n s s' -> ups_ok s x -> ups_ok s' x.
+Proof.
+  intros [[nw E] _ Ht _ Hh]. destruct x as [[o i] [r t]]. cbn. intros (H1 & l & H2 & H3 & H4).
+  split; [lia|]. exists l. split; [rewrite E; apply in_or_app; right; assumption|]. split; lia.
+Qed.
+
+Record inv10 (w : world) (m : m10) (s : state) : Prop := {
+  j_hinv : hinv s;
+  j_puts : puts_ok (h_puts m) s;
+  j_ups : forall x, In x (h_ups m) -> ups_ok s x;
+  j_viol : h_viol m = [];
+}.
+
+Lemma step_sfr_ex w s e s' out : step w s e = (s', out) -> exists n, sfr n s s'.
+Proof. intros H. apply step_sfr in H as [H|[H _]]; eauto. Qed.
+
+Lemma inv10_update w m m' s e s' out : c_hier (w_cfg w) = true -> inv10 w m s -> step w s e = (s', out) ->
+  h_puts m' = puts_upd (h_puts m) e out ->
+  (forall x, In x (h_ups m') -> In x (h_ups m) \/ ups_ok s' x) ->
+  h_viol m' = [] ->
+  inv10 w m' s'.
+Proof.
+  intros Hh [Hi Hp Hu Hv] Hs Ep Hu' Hv'.
+  pose proof (step_shape _ _ _ _ _ Hh Hi Hs) as Sh.
+  destruct (step_hier _ _ _ _ _ Hh Hi Hs) as [Hi' _].
+  destruct (step_sfr_ex _ _ _ _ _ Hs) as [n Hn].
+  constructor; try assumption.
+  - rewrite Ep. eapply puts_ok_step; eassumption.
+  - intros x Hx. apply Hu' in Hx as [Hx|Hx]; [|assumption]. eapply ups_ok_mono; [exact Hn|]. apply Hu, Hx.
+Qed.
+
+Lemma get_open_found w s tid o j i l s' out : c_hier (w_cfg w) = true ->
+  In i (ancestors w j) -> In ((o, S i), l) (s_index s) -> loc_valid s l = true ->
+  step w s (OGetOpen tid o j) = (s', out) -> forall b, out <> Done cNotFound b.
+Proof.
+  intros Hh Ha Hin Hv Hg b.
+  assert (index_get s (o, S i) <> None) as Hne by (eapply index_get_of_valid; eassumption).
+  assert (least_specific s (lookup_keys w o j) <> None) as Hls.
+  { intros Hn. apply Hne. eapply least_specific_none; [exact Hn|].
+    rewrite hier_lookup_keys by assumption. apply (in_map (fun a => (o, S a))). assumption. }
+  revert Hg. unfold step. cbn [may_take_refresh_lock is_corrupt andb].
+  destruct (thr_get (s_threads s) tid); [iinv; discriminate|].
+  destruct (get_open w s o j) as [[t|e'] s1] eqn:E; iinv; [discriminate|].
+  apply get_open_nwf in E as [_ [_ E]]. intros Hx. inv Hx. apply Hls, E. reflexivity.
+Qed.
+
+Ltac upd10 Hh Hinv Hs :=
+  eapply inv10_update; [exact Hh|exact Hinv|exact Hs|..]; cbn [h_puts h_ups h_viol puts_upd];
+  [try reflexivity; try (destruct out; reflexivity)
+  |try (let x := fresh in let Hx := fresh in intros x Hx; left; exact Hx)
+  |try apply (j_viol _ _ _ Hinv)].
+
+Lemma inv10_step w m s e s' out : c_hier (w_cfg w) = true -> inv10 w m s -> step w s e = (s', out) ->
+  inv10 w (m10_step w m (e, (s, s', out), enc_obs (w_cfg w) e s s' out)) s'.
+Proof.
+  intros Hh Hinv Hs. unfold m10_step.
+  pose proof (ob_kind_enc (w_cfg w) e s s' out) as Hk.
+  pose proof (ob_code_enc (w_cfg w) e s s' out) as Hc.
+  remember (enc_obs (w_cfg w) e s s' out) as o eqn:Eo.
+  pose proof (step_shape _ _ _ _ _ Hh (j_hinv _ _ _ Hinv) Hs) as Sh.
+  destruct e as [tid ob i|tid data|tid err|tid ob i|tid|ds|tid p i ch|tid slices|rg off len];
+    try solve [upd10 Hh Hinv Hs].
+  - (* OPutStart *)
+    destruct out as [c b| |c ds|]; rewrite Hk; cbn [Z.eqb Pos.eqb]; upd10 Hh Hinv Hs.
+  - (* OPutChunk *)
+    destruct out as [c b| |c ds|]; rewrite Hk; cbn [Z.eqb Pos.eqb]; try solve [upd10 Hh Hinv Hs].
+    cbn in Sh. destruct Sh as (s1 & E1 & -> & Hpo & Hne).
+    destruct (assoc (h_puts m) tid) as [oi|] eqn:Ea; [|upd10 Hh Hinv Hs; rewrite Ea; reflexivity].
+    unfold ob_ok. rewrite Hk, Hc. destruct (Z.eqb_spec c 0); [contradiction|]. cbn [Z.eqb andb].
+    upd10 Hh Hinv Hs. rewrite Ea. reflexivity.
+  - (* OPutEnd *)
+    destruct out as [c b| |c ds|]; rewrite Hk; cbn [Z.eqb Pos.eqb]; try solve [upd10 Hh Hinv Hs].
+    cbn in Sh. destruct Sh as (s1 & E1 & Es' & oi' & Hpo & Hcomp).
+    pose proof (j_puts _ _ _ Hinv _ _ Hpo) as Ea. rewrite Ea.
+    unfold ob_ok. rewrite Hk, Hc. cbn [Z.eqb andb].
+    destruct (Z.eqb_spec c 0) as [->|Hne].
+    + upd10 Hh Hinv Hs; [rewrite Ea; reflexivity|].
+      intros x [<-|Hx]; [right|left; exact Hx].
+      destruct oi' as [o' i'].
+      destruct (upload_entry_valid _ _ _ _ _ o' i' Hh (j_hinv _ _ _ Hinv) Hs) as (l & Hin & Hq & Hhi).
+      { rewrite (Hcomp eq_refl). left. reflexivity. }
+      cbn. split; [lia|]. exists l. auto.
+    + upd10 Hh Hinv Hs. rewrite Ea. reflexivity.
+  - (* OGetOpen *)
+    match goal with |- context [if ?b then _ else m] => assert (b = false) as -> end; [|upd10 Hh Hinv Hs].
+    rewrite Hk, Hc. destruct out as [c b| |c ds|]; try reflexivity. cbn [Z.eqb andb].
+    destruct (Z.eqb_spec c cNotFound) as [->|Hne]; [|reflexivity]. cbn [andb].
+    apply not_true_iff_false. intros Hex. apply existsb_exists in Hex as ([[ob' i'] [r t]] & Hx & Hcnd).
+    apply andb_true_iff in Hcnd as [Hcnd Ht]. apply andb_true_iff in Hcnd as [Hcnd Hr].
+    apply andb_true_iff in Hcnd as [Hob Hanc]. apply Nat.eqb_eq in Hob. subst ob'.
+    apply existsb_exists in Hanc as (a & Ha & Hai). apply Nat.eqb_eq in Hai. subst a.
+    apply N.eqb_eq in Ht.
+    destruct (j_ups _ _ _ Hinv _ Hx) as (Ht1 & l & Hin & Hl1 & Hl2).
+    destruct (step_sfr_ex _ _ _ _ _ Hs) as [n [_ _ Htm _ _]].
+    eapply (get_open_found w s tid ob i i' l); try eassumption; [|reflexivity].
+    unfold loc_valid. unfold hiM in Hl2. lia.
+Qed.
+
+Lemma inv10_init w : inv10 w m10_init (init_state (w_cfg w)).
+Proof.
+  constructor.
+  - apply hinv_init.
+  - intros tid oi H. cbn in H. discriminate.
+  - intros x [].
+  - reflexivity.
+Qed.
+
+Lemma m10_fold_inv w es : c_hier (w_cfg w) = true -> forall m s, inv10 w m s ->
+  h_viol (fold_left (m10_step w)
+            (combine (combine es (run_states w s es)) (model_obs w es (run_states w s es))) m) = [].
+Proof.
+  intros Hh. unfold model_obs. induction es as [|e t IH]; intros m s Hinv; cbn [run_states].
+  - cbn. apply (j_viol _ _ _ Hinv).
+  - destruct (step w s e) as [s1 out] eqn:E. cbn [combine map fold_left].
+    apply IH. apply inv10_step; assumption.
+Qed.
+
+(** clause 4 never fires on hierarchical model runs *)
+Lemma mon10_no_clause4 w es : c_hier (w_cfg w) = true -> mon10_clause4 w es = [].
+Proof. intros Hh. apply m10_fold_inv; [assumption|apply inv10_init]. Qed.
+
+(** ---- the combined statements ---- *)
+Lemma dedupZ_in x l : In x (dedupZ l) -> In x l.
+Proof.
+  induction l as [|a t IH]; cbn; [auto|].
+  destruct (existsb (Z.eqb a) t); [auto|]. intros [H|H]; auto.
+Qed.
+Lemma dedupZ_nil l : dedupZ l = [] -> l = [].
+Proof.
+  induction l as [|a t IH]; cbn; [reflexivity|].
+  destruct (existsb (Z.eqb a) t) eqn:E; [|discriminate].
+  intros H. apply IH in H. subst. discriminate.
+Qed.
+
+(** on hierarchical stores everything mon10 reports is a report of C01's
+    monitor other than clause 2: provenance (2) never fires and the fold of
+    clause 4 (readability) is silent *)
+Theorem mon10_model_only_data_clauses w es : c_hier (w_cfg w) = true ->
+  mon10_clause4 w es = [] /\
+  forall v, In v (mon10_model w es) -> v <> 2 /\ In v (mon01_model w es).
+Proof.
+  intros Hh. split; [apply mon10_no_clause4, Hh|]. intros v Hv.
+  unfold mon10_model in Hv. apply dedupZ_in in Hv.
+  rewrite Hh, (mon10_no_clause4 w es Hh), app_nil_r in Hv.
+  split; [|assumption].
+  intros ->. apply dedupZ_in in Hv. eapply mon01_no_clause2; eassumption.
+Qed.
+
+(** given C01's statement (clauses 1 and 3 silent), the C10 monitor is silent *)
+Theorem store_model_satisfies_C10_given_C01 w es : c_hier (w_cfg w) = true ->
+  mon01_model w es = [] -> mon10_model w es = [].
+Proof.
+  intros Hh H01. unfold mon10_model. rewrite Hh, (mon10_no_clause4 w es Hh), H01. reflexivity.
+Qed.
